@@ -16,7 +16,8 @@ and not modelled.  This file proves, for EVERY graph:
     (`addWriteColumns_frame`, `replaceWildcard_frame`, `expandWildcard_frame`, `resolveOne_frame`, `resolveAll_frame`),
     hence leaves `holder.read / .write / .cte / .drop` and the rename edges alone (`tables_independent_of_provider_ops`);
   * `tables_independent_of_provider_partial` — the statement‑level consequence for every statement without a query and for
-    SELECT / CREATE TABLE AS / CREATE VIEW over a flat SELECT block; what is missing for the full mutual walk is said there;
+    SELECT / CREATE TABLE AS / CREATE VIEW over a flat SELECT block (`tables_independent_of_provider_insert_partial`: also
+    INSERT … SELECT into a target the provider does not know); what is missing for the full mutual walk is said there;
   * `star_exact`, `unqualified_by_metadata`, `never_to_known_lacking`, `insert_positions_from_target_meta`,
     `explicit_list_wins` (for the REPAIRED create_insert.py, `Model/InsertCols.lean`), `unknown_tables_unchanged`;
   * `dev_D8` — the unrepaired extractor (`InsertCols.exWriteQueryUnrepaired`) ignores an explicit column list that is a strict
@@ -766,6 +767,82 @@ theorem tables_independent_of_provider_partial (env : Env) (p : ProvView) (silen
     | renameTable ps => exact TablesAgree.refl _
     | noop _ _ => exact TablesAgree.refl _
     | unsupported _ => exact TablesAgree.refl _
+
+/-- INSERT … SELECT over a flat block into a target the provider does NOT know (whatever it knows about the sources —
+    the wildcard expansion case): the target holder is the one without provider, the rest is as for CREATE TABLE AS.
+    (INSERT into a KNOWN target is the case named as missing in `tables_independent_of_provider_partial`.) -/
+theorem tables_independent_of_provider_insert_partial (env : Env) (p : ProvView) (silent : Bool) (k : Ast.InsertKind)
+    (tk : Bool) (tgt : List String) (cols : Option (List String)) (q : Ast.Query) (b : Bool)
+    (hq : Flat.flatSelect q = true) (hunk : p.cols (mkTable env tgt none).printed = []) :
+    TablesAgree (analyze { env with prov := p } silent (.insert k tk tgt cols q b))
+      (analyze { env with prov := ProvView.none } silent (.insert k tk tgt cols q b)) := by
+  have h0 : ∀ g : LGraph, addWriteColumns g [] = g := by
+    intro g; unfold addWriteColumns; split <;> rfl
+  have hpc : provColumns p (mkTable env tgt none).d (mkTable env tgt none).printed = [] := by
+    simp [provColumns, hunk]
+  -- the holder after the table reference, under provider `p'`
+  let G1 : ProvView → LGraph := fun p' =>
+    if (true && p'.truthy) = true then
+      addWriteColumns (addWriteO Graph.empty (mkTable env tgt none))
+        (provColumns p' (mkTable env tgt none).d (mkTable env tgt none).printed)
+    else addWriteO Graph.empty (mkTable env tgt none)
+  have hG1 : ∀ p' : ProvView, (p' = p ∨ p' = ProvView.none) → G1 p' = addWriteO Graph.empty (mkTable env tgt none) := by
+    intro p' hp'
+    rcases hp' with rfl | rfl
+    · simp only [G1, hpc, h0, ite_self]
+    · rfl
+  have hG : ∃ G : LGraph, ∀ p' : ProvView, (p' = p ∨ p' = ProvView.none) →
+      exWriteQuery { env with prov := p' } true tgt cols q =
+      (match exQuery { env with prov := p' } (ctxOf G) q with | .ok h => .ok (G.compose h) | .error e => .error e) := by
+    first
+      | (refine ⟨(match cols with
+            | some cs => addWriteColumns (addWriteO Graph.empty (mkTable env tgt none)) (cs.map listColumn)
+            | none => addWriteO Graph.empty (mkTable env tgt none)), ?_⟩
+         intro p' hp'
+         have e1 : exWriteQuery { env with prov := p' } true tgt cols q =
+             (match exQuery { env with prov := p' } (ctxOf (match cols with
+                 | some cs => addWriteColumns (G1 p') (cs.map listColumn) | none => G1 p')) q with
+               | .ok h => Except.ok (Graph.compose (match cols with
+                 | some cs => addWriteColumns (G1 p') (cs.map listColumn) | none => G1 p') h)
+               | .error e => Except.error e) := rfl
+         rw [e1, hG1 p' hp'])
+      | (cases cols with
+         | none =>
+           refine ⟨writeTargetHolder { env with prov := ProvView.none } true tgt none, ?_⟩
+           intro p' hp'
+           have hT : writeTargetHolder { env with prov := p' } true tgt none =
+               writeTargetHolder { env with prov := ProvView.none } true tgt none := by
+             show G1 p' = G1 ProvView.none
+             rw [hG1 p' hp', hG1 ProvView.none (Or.inr rfl)]
+           have e3 : exWriteQuery { env with prov := p' } true tgt none q =
+               (match exQuery { env with prov := p' } (ctxOf (writeTargetHolder { env with prov := p' } true tgt none)) q with
+                 | .ok h => Except.ok (Graph.compose (writeTargetHolder { env with prov := p' } true tgt none) h)
+                 | .error e => Except.error e) := rfl
+           rw [e3, hT]
+         | some cs =>
+           refine ⟨writeTargetHolder { env with prov := ProvView.none } true tgt (some cs), ?_⟩
+           intro p' hp'
+           have hT : writeTargetHolder { env with prov := p' } true tgt (some cs) =
+               writeTargetHolder { env with prov := ProvView.none } true tgt (some cs) := by
+             show addWriteColumns (removeWriteColumns (G1 p')) (cs.map listColumn) =
+               addWriteColumns (removeWriteColumns (G1 ProvView.none)) (cs.map listColumn)
+             rw [hG1 p' hp', hG1 ProvView.none (Or.inr rfl)]
+           have e3 : exWriteQuery { env with prov := p' } true tgt (some cs) q =
+               (match exQuery { env with prov := p' } (ctxOf (writeTargetHolder { env with prov := p' } true tgt (some cs))) q with
+                 | .ok h => Except.ok (Graph.compose (writeTargetHolder { env with prov := p' } true tgt (some cs)) h)
+                 | .error e => Except.error e) := rfl
+           rw [e3, hT])
+  obtain ⟨G, hG⟩ := hG
+  unfold analyze
+  cases dispatch (stmtType (.insert k tk tgt cols q b)) with
+  | none => exact TablesAgree.refl _
+  | some c =>
+    simp only
+    rw [hG p (Or.inl rfl), hG ProvView.none (Or.inr rfl)]
+    rcases exQuery_flat_agree env p ProvView.none (ctxOf G) q hq with ⟨e, h1, h2⟩ | ⟨c', h1, h2⟩
+    · rw [h1, h2]; simp [TablesAgree]
+    · rw [h1, h2]
+      exact agree_of_frames (Frame.compose G (expandWildcard_frame p c')) (Frame.compose G (expandWildcard_frame _ c'))
 
 /-! ### `unknown_tables_unchanged` -/
 
